@@ -160,7 +160,7 @@ def comp (env : Sym → String) : CIR → Nat → String
         (if divLhsNonNeg a then "(" ++ l ++ " / " ++ r ++ ")"
          else "exo_floor_div(" ++ l ++ ", " ++ r ++ ")")
       else paren (decide (lp < prec)) (l ++ " " ++ op.str ++ " " ++ r)
-  | .stride x d, _ => env x ++ ".strides[" ++ toString d ++ "]"
+  | .stride x d, _ => x.name ++ ".strides[" ++ toString d ++ "]"   -- quirk: `f"{e.name}.strides[{e.dim}]"`, NOT `env[e.name]`
   | .usub a _, _ => "-" ++ comp env a 70
 
 /-- the index-expression part of `comp_e` (loop bounds, conditions' operands, call arguments):
